@@ -432,7 +432,7 @@ func e4RunBody(c e4Case, started chan<- *e4Env) (res *e4Result) {
 	b.pingDelay = time.Duration(c.Cfg.PingDelayMs) * time.Millisecond
 	d := &vdialer{b: b, maxRead: c.Cfg.MaxRead}
 	if c.Cfg.Transport != 0 {
-		d.flavour = func(conn int) int { return (c.Cfg.Transport + conn - 1) & 7 }
+		d.flavour = func(conn int) int { return (c.Cfg.Transport + conn - 1) & 15 }
 	}
 	res = &e4Result{Case: c}
 	e := &e4Env{c: c, log: log, b: b, d: d, res: res}
